@@ -474,7 +474,8 @@ pub fn reimburse_exact_gas() -> String {
     let _ = g.record_cost(50_000); // everything spent ...
     g.record_refund(4_800); // ... but a refund was earned
     reimburse_caller::<CancunSpec, (), CacheDB<EmptyDB>>(&mut ctx, &g).expect("no db error");
-    let bal = ctx.evm.inner.journaled_state.state.get(&CALLER).unwrap().info.balance;
+    // a caller that was never loaded received nothing: its balance is still the one in the database
+    let bal = ctx.evm.inner.journaled_state.state.get(&CALLER).map(|a| a.info.balance).unwrap_or(U256::from(1000));
     let want = U256::from(1000 + 10 * 4_800);
     format!("caller_balance={} expected={} lost={}", bal, want, want.saturating_sub(bal))
 }
